@@ -1,6 +1,6 @@
 (* C16 - Content is lossless and independent of chunking.
    The statement as an executable predicate over (input, observation of the
-   implementation) and as readable Props.  A case is one of eight scenario
+   implementation) and as readable Props.  A case is one of eleven scenario
    kinds; the observation is what the harness records from the real code. *)
 From Coq Require Import String.
 From TT Require Import Lib.Base Model.Utf8 Model.MimeCt Model.Content.
@@ -8,10 +8,14 @@ From TT Require Import Lib.Base Model.Utf8 Model.MimeCt Model.Content.
 (* ---------------- inputs ---------------- *)
 (* content_from_stream / content_from_file scenario: a source with bytes data0
    (BytesIO positioned at pos0), a Content made from it, then the source is
-   overwritten with data1 (position pos1), then the content is iterated twice *)
+   overwritten with data1 (position pos1), then the content is iterated twice.
+   r_sizes is the read-size oracle of the stream (Model.Content.next_size): the
+   i-th read() call of the scenario hands out at most r_sizes[i] bytes (clamped
+   to 1..chunk_size) although more may follow - an unbuffered pipe, socket, raw
+   device; [] = a stream that always fills the request (regular file, BytesIO) *)
 Record reader_in := {
   r_kind : skind; r_data0 : list N; r_pos0 : nat; r_seek : seekarg; r_chunk : nat; r_buffer : bool;
-  r_data1 : list N; r_pos1 : nat }.
+  r_data1 : list N; r_pos1 : nat; r_sizes : list nat }.
 
 (* gathering a detail whose callback serves a mutable Python list (or, sl_tuple, an
    immutable tuple made from it): the list holds sl_buf when the copy is made and
@@ -29,10 +33,13 @@ Inductive input :=
 | ISnapList (r : snaplist_in)               (* ... of a content over an in-memory list *)
 | IReaderList (buffer : bool) (r : snaplist_in)   (* content_from_reader(callback over such a list, ct, buffer_now) *)
 | IEq (ta : ctype) (ca : list chunk) (tb : ctype) (cb : list chunk)
-| IMime (ct : ctype).                       (* _make_content_type(repr(ct)) *)
+| IMime (ct : ctype)                        (* _make_content_type(repr(ct)) *)
+(* a history of reads on ONE object Content(ct, lambda: chunks): readers created, advanced
+   alternately, abandoned, drained; as_text() in between.  oracle = bytes.decode(charset) of
+   the joined bytes as computed by Python, used only for charsets the model has no codec for *)
+| IHist (ct : ctype) (chunks : list chunk) (oracle : option tres) (ops : list hop).
 
 (* ---------------- observations ---------------- *)
-Definition tres := res (list N) exn.         (* as_text(): code points, or what was raised *)
 Definition bres := res (list chunk) exn.     (* list(iter_bytes()) *)
 
 Inductive obs :=
@@ -46,7 +53,8 @@ Inductive obs :=
 | OSnapList (same_type : bool) (c1 c2 : bres) (orig : bres)
 | OReaderList (it1 it2 : bres)
 | OEq (eq ne : bool)
-| OMime (echo : ctype) (r : res ctype perr).    (* the content type that went in, and what came back *)
+| OMime (echo : ctype) (r : res ctype perr)     (* the content type that went in, and what came back *)
+| OHist (rs : list hres).                      (* one result per operation of the history *)
 
 (* ---------------- the quantifier "every split" ---------------- *)
 (* all ways of cutting a byte string into consecutive non-empty chunks ... *)
@@ -89,6 +97,36 @@ Definition text_okb (ct : ctype) (bs : list N) (t : tres) : bool :=
     | None => true
     end
   else true.
+
+(* a COMPLETE read of a text content (as_text(), or everything one iter_text() reader
+   collected from its first piece to exhaustion), whoever else read or is reading the same
+   object: the whole byte string decoded in the declared charset.  For a charset Python knows
+   and the model does not, the whole-string decode is the oracle's answer carried by the case *)
+Definition read_okb (ct : ctype) (bs : list N) (oracle : option tres) (t : tres) : bool :=
+  if str_eqb (ct_type ct) (sb "text") then
+    match codec_of (declared_charset ct) with
+    | Some C => tres_eqb t (whole C bs)
+    | None => match oracle with Some e => tres_eqb t e | None => true end
+    end
+  else true.
+
+(* every operation got its kind of answer; n = the readers created so far; a text content
+   always hands out a reader; every complete read is right *)
+Fixpoint hist_okb (text : bool) (ok : tres -> bool) (n : nat) (ops : list hop) (rs : list hres) : bool :=
+  match ops, rs with
+  | [], [] => true
+  | HNew :: o, RNew e :: r =>
+      match e with
+      | None => hist_okb text ok (S n) o r
+      | Some _ => negb text && hist_okb text ok n o r
+      end
+  | HNext i :: o, RStepped :: r => Nat.ltb i n && hist_okb text ok n o r
+  | HNext i :: o, RNoIter :: r => Nat.leb n i && hist_okb text ok n o r
+  | HFinish i :: o, RRead t :: r => Nat.ltb i n && ok t && hist_okb text ok n o r
+  | HFinish i :: o, RNoIter :: r => Nat.leb n i && hist_okb text ok n o r
+  | HAsText :: o, RRead t :: r => ok t && hist_okb text ok n o r
+  | _, _ => false
+  end.
 
 (* the bytes from the requested offset to the end of the source *)
 Definition start_of (k : skind) (len pos : nat) (sk : seekarg) : res nat exn :=
@@ -214,6 +252,8 @@ Definition spec_okb (i : input) (o : obs) : bool :=
   | IEq ta ca tb cb, OEq e ne =>
       Bool.eqb e (ct_eqb ta tb && bytes_eqb (concat ca) (concat cb)) && Bool.eqb ne (negb e)
   | IMime ct, OMime echo r => ctype_eqb echo ct && survives ct r
+  | IHist ct chunks oracle ops, OHist rs =>
+      hist_okb (str_eqb (ct_type ct) (sb "text")) (read_okb ct (concat chunks) oracle) 0 ops rs
   | _, _ => false
   end.
 
@@ -287,6 +327,20 @@ Definition SnapSpec (r : reader_in) (copied : option exn) (same : bool) (c1 c2 :
              /\ JoinedOk orig (want k (r_data1 r) (r_pos1 r) (r_seek r))
   end.
 
+Definition ReadOk (ct : ctype) (bs : list N) (oracle : option tres) (t : tres) : Prop :=
+  ct_type ct = sb "text" ->
+  match codec_of (declared_charset ct) with
+  | Some C => t = whole C bs
+  | None => forall e, oracle = Some e -> t = e
+  end.
+
+(* one answer per operation; as_text() always answers; every complete read that was
+   answered - as_text() or a drained reader, after whatever the other readers did - is right *)
+Definition HistSpec (ct : ctype) (chunks : list chunk) (oracle : option tres) (ops : list hop) (rs : list hres) : Prop :=
+  length rs = length ops
+  /\ (forall k, nth_error ops k = Some HAsText -> exists t, nth_error rs k = Some (RRead t))
+  /\ (forall k t, nth_error rs k = Some (RRead t) -> ReadOk ct (concat chunks) oracle t).
+
 Definition Spec (i : input) (o : obs) : Prop :=
   match i, o with
   | IText s, OText ct bytes text => text = Ok s /\ TextOk ct bytes text
@@ -305,5 +359,6 @@ Definition Spec (i : input) (o : obs) : Prop :=
   | IEq ta ca tb cb, OEq e ne =>
       (e = true <-> CtSame ta tb /\ concat ca = concat cb) /\ ne = negb e
   | IMime ct, OMime echo r => echo = ct /\ exists ct', r = Ok ct' /\ CtSame ct' ct
+  | IHist ct chunks oracle ops, OHist rs => HistSpec ct chunks oracle ops rs
   | _, _ => False
   end.
